@@ -234,6 +234,33 @@ def cases_c01(types, rng, tier):
                     exp = [e.run("jset", keys, pay), e.run("jget", keys, BIG), "snap=" + O.snap_text(e.inst)]
                     if not e.float_hit:
                         c.add(t, st["sid"], {}, ops, exp, f"late-failing payload {pay!r} on {t['label']} {keys}", "latefail")
+            # sweep: one write through every node path (exact key in name and index form, surplus keys, one malformed
+            # key per level) followed by a whole-tree snapshot: exactly the designated leaf changes on success,
+            # nothing changes otherwise
+            for keys, idx, kind, n in ps:
+                variants = [("exact", keys), ("exact-idx", [("i", i) for i in idx]), ("surplus", keys + [("s", "")])]
+                node = inst
+                mal = []
+                for lvl in range(len(keys) + (0 if kind == "leaf" else 1)):
+                    nn = node_children(node)
+                    if nn["k"] == "leaf":
+                        break
+                    for alt in malformed_alternatives(nn, rng):
+                        mal.append((f"mal@{lvl}", keys[:lvl] + [alt] + keys[lvl + 1:]))
+                    if lvl < len(keys):
+                        node = nn["elems"][idx[lvl]] if nn["k"] == "array" else nn["fields"][idx[lvl]]["inst"]
+                if tier == "quick" and len(mal) > 6:
+                    mal = rng.sample(mal, 6)
+                for vname, ks in variants + mal:
+                    pay = (payload_for(n, rng) if kind == "leaf" else None) or "1"
+                    e = O.Expect(inst, {})
+                    spec = keyspec_list(ks)
+                    opn = "jset" if vname != "exact-idx" or "any" not in t["traits"] else rng.choice(["jset", "mut"])
+                    ops = [f"{opn}|{spec}|{enc(pay)}", "snap"]
+                    exp = [e.run(opn, ks, pay), "snap=" + O.snap_text(e.inst)]
+                    if not e.float_hit:
+                        c.add(t, st["sid"], {}, ops, exp, f"write through {ks} ({vname}) on {t['label']} state {st['sid']}",
+                              "sweep-" + vname.split("@")[0])
             for rounds in range(2 if tier == "quick" else 8):
                 # a history of reads and writes on one instance
                 e = O.Expect(inst, {})
